@@ -1,5 +1,7 @@
 """C09 Emitted escape sequences are well-formed, self-contained and strippable."""
 import itertools
+from decimal import Decimal
+from fractions import Fraction
 
 import vf
 vf.use_repo()
@@ -39,7 +41,9 @@ TECHNIQUE = "runtime monitoring: SGR terminal-model oracle, exhaustive over sing
 EFFECT_NAMES = ["bold", "faint", "underline", "blink", "crossed"]
 TEXTS = ["x", "", "[", "m", "0;1m", "[31m", "38:5:1", "a b", "é中", "line1\nline2", ";", "\t", "0", "abc" * 5]
 INVALID = [-1, 256, 1000, -256, (0, 0, 6), (-1, 0, 0), (6, 6, 6), (1, 2), (1, 2, 3, 4), (), "g24", "g-1", "gx",
-           "g", "g99", "PINK", "red", "Red", "", "GRAY", 1.5, 300.0, "255", "#ff0000"]
+           "g", "g99", "PINK", "red", "Red", "", "GRAY", 1.5, 300.0, "255", "#ff0000",
+           # numerically equal to valid codes, but not ints (must not be let through by a cache keyed on ==)
+           1.0, 0.0, 7.0, 200.0, 255.0, Fraction(3), Decimal(5), (1.0, 2, 3), (0, 0, 5.0)]
 
 
 def all_single_values():
@@ -181,6 +185,14 @@ def run_shard(ctx):
             parts.append(case)
             res += chunk
             model += [(c, want) for c in text]
+            if rng.random() < 0.5:
+                # the text is rendered (and measured) while it is being assembled
+                try:
+                    if sgr.cells(str(res)) != model or len(res) != len(model) or format(res, "") != str(res):
+                        ctx.violation("intermediate-rendering-differs", {"out": str(res)[:120]},
+                                      {"kind": "multi", "parts": list(parts)})
+                except sgr.SgrError as err:
+                    ctx.violation("malformed-or-bleeding-sequence", {"err": str(err)}, {"kind": "multi", "parts": list(parts)})
             if rng.random() < 0.4:
                 plain = rng.choice(TEXTS)
                 res += plain
@@ -205,7 +217,7 @@ def replay(ctx, case):
     ctx.evaluated()
     if case["kind"] == "invalid":
         v = case["value"]
-        check_invalid(ctx, v, case["as_bg"], case)
+        check_invalid(ctx, v, case["as_bg"], case)   # (Fraction / Decimal values come back as their repr: harmless)
     elif case["kind"] == "spec":
         check_spec(ctx, case["color"], case["bg"], case["effects"], case["text"], case)
     else:
